@@ -70,7 +70,7 @@ extern "C" void verif_interfere(void) {      // thread B: one complete operation
 }
 
 // sequential oracle on a tiny set model
-#define MAXU 10
+#define MAXU 12
 struct model { std::uint64_t k[MAXU]; bool in[MAXU]; unsigned n; };
 static int midx(const model& m, std::uint64_t key) { for (unsigned i = 0; i < m.n; i++) if (m.k[i] == key) return static_cast<int>(i); return -1; }
 static result mop(model& m, opdesc o) {
@@ -145,6 +145,8 @@ static const std::uint64_t P_full4[] = {1, 2, 3, 4};                     // full
 static const std::uint64_t P_min16[] = {1, 2, 3, 4, 5};                  // min-size I16
 static const std::uint64_t P_leaf[] = {0x0102030405060708ULL};
 static const std::uint64_t P_two[] = {0x10, 0x20};
+// three inode levels: root {00 -> P, 01 -> leaf}; P (full I4) {00 -> N, 01, 02, 03 -> leaves}; N (full I4) {00..03 -> leaves}
+static const std::uint64_t P_nested[] = {0, 1, 2, 3, 0x100, 0x200, 0x300, 0x10000};
 #ifndef KMAX
 #define KMAX 120
 #endif
@@ -173,3 +175,7 @@ SCEN(l_ins_ins_split, P_leaf, INS, 0x01020304FF060708ULL, INS, 0x010203040506070
 SCEN(p_get_split, P_two, GET, 0x20, INS, 0x0100000000000000ULL)
 SCEN(p_rem_split, P_two, REM, 0x10, INS, 0x0000000000010000ULL)
 SCEN(p_get_rem_sib, P_two, GET, 0x20, REM, 0x10)
+// a full inner node under a full non-root parent: both grow
+SCEN(n_ins4_ins400, P_nested, INS, 4, INS, 0x400)
+SCEN(n_get2_ins400, P_nested, GET, 2, INS, 0x400)
+SCEN(n_rem3_ins400, P_nested, REM, 3, INS, 0x400)
